@@ -491,6 +491,31 @@ def r7(F, R):
     R.floor("C02-R7", 4)
 
 
+def r10(F, R):
+    """Log-determinants are sums of logarithms, not logarithms of products."""
+    R.rule("C02-R10", "in the transformation and math code no logarithm is taken of a product reduction (`xs.iter().product().ln()`): the log-determinant of a "
+                      "transformation whose scales / eigenvalues are all finite and positive must be finite, a product of 48 eigenvalues of 1e7 is not")
+    n = 0
+    for b in sorted(F.bodies.values(), key=lambda x: x.path):
+        sa = b.parent.get("self_adt") or ""
+        if not (b.path.startswith(("transform::", "<transform::", "math::", "<math::")) or sa.startswith(("transform::", "math::"))):
+            continue
+        for bb, t in b.calls():
+            c = t["callee"]
+            if c.get("name") in ("ln", "log2", "log10", "ln_1p") and c.get("impl_self") in ("f64", "f32") and t["args"]:
+                n += 1
+                v = b.value(t["args"][0])
+                prods = [x for x in vt_walk(v) if x[0] == "call" and strip_generics(x[1]).endswith(("Iterator::product", "::product"))]
+                key = "%s:ln#%d" % (b.path, n)
+                site = "%s @%s" % (b.path, loc(t["span"]))
+                if prods:
+                    R.bad("C02-R10", "%s:ln-of-product" % b.path, site, "logarithm of a product reduction: over- / underflows to +-inf long before the sum of logarithms does")
+                else:
+                    R.ok("C02-R10", key, site, "ln of %s" % vt_str(v)[:60])
+    R.floor("C02-R10", 2)
+
+
+
 def run(F, R, config="all"):
     r1_r2(F, R)
     r3_r4(F, R)
@@ -499,4 +524,8 @@ def run(F, R, config="all"):
     # the integrator maps are functions of their arguments only if the backend carries nothing from one kernel call to the next
     from . import c17
     c17.stateless_backend(F, R, rid="C02-R8")
+    # energy error O(eps^2): the baseline must be taken after the point is complete (logdet refreshed)
+    from . import c03
+    c03.snapshot(F, R, "C02-R9")
+    r10(F, R)
     R.assume("Math trait contract: `&mut Vector` parameters are written, `& Vector` parameters only read")
